@@ -18,6 +18,7 @@ import (
 	"hash/crc32"
 	"io"
 	"os"
+	"os/exec"
 	"path/filepath"
 	"sort"
 	"strconv"
@@ -35,7 +36,92 @@ func init() {
 		c19HelperMain()
 		os.Exit(0)
 	}
+	if os.Getenv("C19_CRASHPROBE") == "1" {
+		c19CrashProbeMain()
+		os.Exit(0)
+	}
 	groups["zmodem"] = genZmodemGroup
+}
+
+// ---- Ctrl-C before the session's goroutine has begun (run in a child process) ----
+//
+// wrapOutput publishes the session (CompareAndSwap), writes the hide-cursor sequence to the
+// terminal and only then starts handleZmodemEvent, which is what stores the session's
+// writers.  A terminal that is slow to take the hide-cursor sequence keeps that window open;
+// Ctrl-C typed inside it reaches handleZmodemError with serverIn == nil.  The pinned code
+// dies of a nil dereference there (the whole client process), so the probe runs in a child.
+func c19CrashProbeMain() {
+	hdr := []byte("rz\r**\x18B00000000000000\r\x8a\x11")
+	dir, _ := os.MkdirTemp("", "c19probe")
+	defer os.RemoveAll(dir)
+	cinR, cinW := io.Pipe()
+	coutR, coutW := io.Pipe()
+	sinR, sinW := io.Pipe()
+	soutR, soutW := io.Pipe()
+	filter := trzsz.NewTrzszFilter(cinR, coutW, sinW, soutR, trzsz.TrzszOptions{EnableZmodem: true})
+	filter.SetDefaultDownloadPath(dir)
+	srv := &c19Log{start: time.Now()}
+	go srv.pump(sinR)
+	go func() { // the slow terminal: after the forwarded header it takes 400 ms to accept more
+		buf := make([]byte, 1<<16)
+		for {
+			n, err := coutR.Read(buf)
+			if err != nil {
+				return
+			}
+			if bytes.Equal(buf[:n], hdr) {
+				time.Sleep(400 * time.Millisecond)
+			}
+		}
+	}()
+	soutW.Write(hdr)
+	visible := false
+	for k := 0; k < 300 && !visible; k++ {
+		visible = trzsz.VerifZmodemCurrent(filter) != nil
+		if !visible {
+			time.Sleep(time.Millisecond)
+		}
+	}
+	time.Sleep(50 * time.Millisecond)
+	cinW.Write([]byte{3})
+	time.Sleep(1500 * time.Millisecond)
+	cancel, enter := false, false
+	for _, w := range srv.snapshot() {
+		cancel = cancel || bytes.Equal(w.b, c19CancelFull)
+		enter = enter || bytes.Equal(w.b, []byte("\r"))
+	}
+	fmt.Printf("survived visible=%v cancel=%v cleaned=%v\n", visible, cancel, enter)
+}
+
+func c19CrashProbe(c *ctx, exe, bindir string) {
+	cmd := exec.Command(exe)
+	cmd.Env = append(os.Environ(), "C19_CRASHPROBE=1", "PATH="+bindir)
+	done := make(chan struct{})
+	var out []byte
+	var err error
+	go func() { out, err = cmd.CombinedOutput(); close(done) }()
+	select {
+	case <-done:
+	case <-time.After(20 * time.Second):
+		cmd.Process.Kill()
+		<-done
+	}
+	c.count("crash-probe:runs")
+	txt := string(out)
+	detail := "history: the server writes \"rz\\r**\\x18B00000000000000\\r\\x8a\\x11\"; the terminal takes 400 ms to accept the hide-cursor sequence; 50 ms after the session became visible the user types 0x03; child output: " + txt
+	if len(detail) > 3000 {
+		detail = detail[:3000]
+	}
+	switch {
+	case err != nil && strings.Contains(txt, "panic"):
+		c.violate("ctrl-c-before-session-goroutine-crash",
+			"Ctrl-C typed after the zmodem session was published but before handleZmodemEvent had stored its writers kills the whole client process (nil dereference in handleZmodemError)", detail)
+	case err != nil:
+		c.violate("ctrl-c-before-session-goroutine-probe-failed", "the crash probe child failed: "+err.Error(), detail)
+	case !strings.Contains(txt, "visible=true cancel=true cleaned=true"):
+		c.violate("ctrl-c-before-session-goroutine-ignored",
+			"Ctrl-C typed before the session's goroutine had begun did not cancel and clean up the session", detail)
+	}
 }
 
 // ---- the fake helper: cwd is the scenario directory ----
@@ -210,6 +296,7 @@ type c19Result struct {
 	startedOn  [][]byte // chunks right after whose forwarding the cursor was hidden
 	driftMs    int      // how late the harness itself was with its worst scripted event
 	launches   int      // how many helper processes were started (lines of born.log)
+	aborted    bool     // the run was given up before an event that would have hit the pinned code's crash window
 }
 
 func c19TermItem(b []byte) (string, bool) {
@@ -320,6 +407,7 @@ func c19Run(sc *c19Scenario) (res c19Result) {
 			last = cur
 		}
 	}
+	lastHdrAt := -1
 	for _, e := range sc.evs {
 		if d := time.Until(start.Add(time.Duration(e.t) * time.Millisecond)); d > 0 {
 			time.Sleep(d)
@@ -328,6 +416,28 @@ func c19Run(sc *c19Scenario) (res c19Result) {
 			res.driftMs = d
 		}
 		poll()
+		if e.kind == 'i' && len(e.data) == 1 && e.data[0] == 3 && lastHdrAt >= 0 && e.t < lastHdrAt+100 {
+			// Ctrl-C inside the grace period: the session must be visible and its goroutine
+			// must have begun (before that the pinned code dereferences a nil writer and the
+			// whole process dies, see c19CrashProbe); otherwise give this run up
+			ok := false
+			for k := 0; k < 35 && !ok; k++ {
+				if cur := trzsz.VerifZmodemCurrent(filter); cur != nil && cur.Begun() {
+					ok = true
+				} else {
+					time.Sleep(time.Millisecond)
+				}
+			}
+			if !ok {
+				res.aborted, res.driftMs = true, 999
+				cinW.Close()
+				return
+			}
+			poll()
+		}
+		if e.kind == 's' && trzsz.VerifDetectZmodem(e.data) >= 0 && trzsz.VerifZmodemCurrent(filter) == nil {
+			lastHdrAt = e.t
+		}
 		switch e.kind {
 		case 's':
 			soutW.Write(e.data)
@@ -931,6 +1041,7 @@ func genZmodemGroup(c *ctx) {
 	oldPath := os.Getenv("PATH")
 	defer os.Setenv("PATH", oldPath)
 	os.Setenv("C19_HELPER", "1")
+	c19CrashProbe(c, exe, bindir)
 
 	var present, absent []*c19Scenario
 	present = append(present, c19Corpus(c)...)
@@ -990,6 +1101,10 @@ func genZmodemGroup(c *ctx) {
 		r := allRes[i]
 		for _, t := range sc.tags {
 			c.count(t)
+		}
+		if r.aborted {
+			c.count("aborted:session-goroutine-not-begun-in-35ms")
+			continue
 		}
 		args := append([]string{"1"}, sc.modelArgs(r.readerr)...)
 		if r.driftMs > 25 {
